@@ -246,6 +246,100 @@ pub fn run_c19(ctx: &Ctx) -> Report {
         rep.extra.insert("non_string_values".into(), json!(vals.len()));
         rep.collector = coll;
     }
+    // histories on the serde entry points: (1) Deserialize::deserialize_in_place over an existing
+    // value -- the result must be the value FromStr gives for the new text, whatever the place held
+    // (an implementation that re-uses the old value's storage must not leak it); on Err the place
+    // may hold anything valid but the call must return; (2) a serialisation that FAILS inside the
+    // serializer (a writer that refuses) followed by a serialisation of another value on the same
+    // thread -- the second must be exact (a scratch buffer that is only cleared on success leaks)
+    {
+        use serde::Deserialize;
+        let coll = std::mem::take(&mut rep.collector);
+        let mut menu: Vec<String> = ["en", "und", "en-US", "ca-ES-valencia", "de-1996", "sl-rozaj-biske-1994", "zh-Hant-TW", "sr-Cyrl-RS-ekavsk-fonipa", "abcdefgh-Latn-001-1abc-zzzzzzzz", "und-419"].iter().map(|s| s.to_string()).collect();
+        for n in [3usize, 8, 9, 17] {
+            menu.push(super::counts::text_of("variants", &(0..n).collect::<Vec<_>>()));
+            menu.push(super::counts::text_of("variants", &(1..=n).collect::<Vec<_>>()));
+        }
+        let bad = ["", "en-", "toolongsubtag", "en-US-", "e", "en-u-ca", "123"];
+        let mut n = 0u64;
+        for old in &menu {
+            let Ok(old_v) = LanguageIdentifier::from_str(old) else { continue };
+            for new in menu.iter().map(|s| s.as_str()).chain(bad.iter().copied()) {
+                n += 1;
+                let doc = serde_json::to_string(new).expect("json string");
+                let want = LanguageIdentifier::from_str(new);
+                let r = guard_total(|| {
+                    let mut place = old_v.clone();
+                    let mut de = serde_json::Deserializer::from_str(&doc);
+                    let res = LanguageIdentifier::deserialize_in_place(&mut de, &mut place).map_err(|e| e.to_string());
+                    (res, place)
+                });
+                let case = Case::Text(format!("serde:in_place:{}|{}", old, new));
+                match (r, &want) {
+                    (Ok((Ok(()), place)), Ok(w)) if place == *w && place.to_string() == w.to_string() => {}
+                    (Ok((Err(_), _)), Err(_)) => {}
+                    (Ok((res, place)), _) => coll.push(n, Violation { sub: "c19.in_place", class: "Deserialize::deserialize_in_place over an existing value differs from FromStr of the new text".into(), case, expected: format!("{:?}", want.as_ref().map(|w| w.to_string())), observed: format!("{:?} leaving {:?}", res, place) }),
+                    (Err(p), _) => coll.push(n, Violation { sub: "c19.in_place", class: "Deserialize::deserialize_in_place panics".into(), case, expected: "Ok or Err".into(), observed: p }),
+                }
+                // the same through a Vec (serde re-uses the elements of the existing vector in place)
+                if let Ok(w) = &want {
+                    n += 1;
+                    let docv = format!("[{},{}]", doc, doc);
+                    let r = guard_total(|| {
+                        let mut place = vec![old_v.clone(), old_v.clone(), old_v.clone()];
+                        let mut de = serde_json::Deserializer::from_str(&docv);
+                        let res = Vec::<LanguageIdentifier>::deserialize_in_place(&mut de, &mut place).map_err(|e| e.to_string());
+                        (res, place)
+                    });
+                    match r {
+                        Ok((Ok(()), place)) if place == vec![w.clone(), w.clone()] => {}
+                        Ok((res, place)) => coll.push(n, Violation { sub: "c19.in_place", class: "Vec::<LanguageIdentifier>::deserialize_in_place over existing elements differs from FromStr of the new texts".into(), case: Case::Text(format!("serde:in_place_vec:{}|{}", old, new)), expected: format!("[{}, {}]", w, w), observed: format!("{:?} leaving {:?}", res, place) }),
+                        Err(p) => coll.push(n, Violation { sub: "c19.in_place", class: "Vec::deserialize_in_place panics".into(), case: Case::Text(format!("serde:in_place_vec:{}|{}", old, new)), expected: "Ok or Err".into(), observed: p }),
+                    }
+                }
+            }
+        }
+        // (2) failing serializer, then a good one
+        struct Refuse(usize);
+        impl std::io::Write for Refuse {
+            fn write(&mut self, b: &[u8]) -> std::io::Result<usize> {
+                if self.0 == 0 {
+                    return Err(std::io::Error::new(std::io::ErrorKind::Other, "refused"));
+                }
+                let k = b.len().min(self.0);
+                self.0 -= k;
+                Ok(k)
+            }
+            fn flush(&mut self) -> std::io::Result<()> {
+                Ok(())
+            }
+        }
+        for x in &menu {
+            let Ok(xv) = LanguageIdentifier::from_str(x) else { continue };
+            for y in &menu {
+                let Ok(yv) = LanguageIdentifier::from_str(y) else { continue };
+                for budget in [0usize, 1, 3] {
+                    n += 1;
+                    let r = guard_total(|| {
+                        let first = serde_json::to_writer(Refuse(budget), &xv).is_err();
+                        (first, serde_json::to_string(&yv).map_err(|e| e.to_string()), serde_json::to_value(&yv).map_err(|e| e.to_string()))
+                    });
+                    let want = format!("\"{}\"", yv);
+                    match r {
+                        Ok((_, Ok(s), Ok(v))) if s == want && v == Value::String(yv.to_string()) => {}
+                        Ok(o) => coll.push(n, Violation { sub: "c19.serialize", class: "a serialisation right after one that failed inside the serializer is not the quoted canonical string".into(), case: Case::Text(format!("serde:after_failure:{}|{}|{}", x, y, budget)), expected: want, observed: format!("{:?}", o) }),
+                        Err(p) => coll.push(n, Violation { sub: "c19.serialize", class: "serialisation panics".into(), case: Case::Text(format!("serde:after_failure:{}|{}|{}", x, y, budget)), expected: want, observed: p }),
+                    }
+                }
+            }
+        }
+        rep.collector = coll;
+        rep.states += n;
+        rep.transitions += n;
+        rep.traces += n;
+        rep.evaluations += n;
+        rep.extra.insert("serde_histories".into(), json!({"kind": "every ordered pair (old value, new text) of an 18-identifier menu (incl. 3 / 8 / 9 / 17 variants) plus 7 ill-formed texts through Deserialize::deserialize_in_place on a LanguageIdentifier and on a Vec of them; every ordered pair (x, y) x 3 write budgets: to_writer(x) into a writer that refuses, then to_string(y) / to_value(y)", "cases": n}));
+    }
     rep.rule = "C02's input spaces (E1 token trees, every language-id skeleton, its edit neighbourhoods); every UTF-8 input is encoded as a JSON string twice (minimal escaping; every UTF-16 unit as \\uXXXX) and deserialised through from_str, from_slice, from_reader and from_value(Value::String): Ok(v) iff FromStr is Ok(v), same v; every accepted value is serialised with to_string / to_vec / to_value and must be exactly the quoted canonical string and deserialise back; non-UTF-8 inputs are sent as raw documents; a fixed complete list of non-string documents and Values must give Err, never a panic; every LanguageIdentifier reachable in the E3 H-id harness is round-tripped. Non-trivial = FromStr accepts.".into();
     rep.assumptions = vec!["serde_json 1.x as the self-describing format (two paths: text and Value)".into()];
     let _ = inputs::parse_langid;
